@@ -22,7 +22,9 @@ STATEFUL = True
 PARALLEL = False
 RULE = ("[phase 2: + lazy results requested under one configuration and consumed later / partly / by interleaved "
         "iterators (`res`/`str`/`iter`/`next`), the implicit global configuration mixed with explicit ones, tables that "
-        "share a format object or are re-formatted after a printing, mixed-type enum values] histories of 3-16 operations over 1-5 configurations (created, dropped with gc.collect(), made global), 1-2 enum "
+        "share a format object or are re-formatted after a printing, mixed-type enum values, materialise-then-iterate, "
+        "line-end characters in contents, the palette argument (none / palette class / palette object) with explicit or "
+        "implicit configuration and no_color] histories of 3-16 operations over 1-5 configurations (created, dropped with gc.collect(), made global), 1-2 enum "
         "field types and 2-4 printable objects of all five kinds (pretty-printed data, tables incl. enum columns / limits / "
         "break lines / multi-line titles / truncation, record formats, git history reports over stub data, console help), "
         "each rendered coloured, without colours, line by line (before or after the whole text); streams: random, `reuse` "
@@ -321,9 +323,17 @@ class _Obj:
         return {"pp": PrettyPrinter, "table": PPTable, "rec": PPRecordFmt, "ghist": GHistReport,
                 "hcmd": HCommand}[self.kind].PALETTE_CLASS
 
-    def result(self, conf, no_color, palette=None):
-        """the lazily evaluated result object (or its closest analogue)"""
-        kw = dict(palette=palette) if palette is not None else dict(no_color=no_color, colors_conf=conf)
+    def result(self, conf, no_color, palette=None, pk="n"):
+        """the lazily evaluated result object (or its closest analogue); pk: how the palette is given —
+        n: not at all, c: palette=<the palette class>, o: palette=<an object of it made from the configuration>"""
+        if palette is not None:
+            kw = dict(palette=palette)
+        elif pk == "c":
+            kw = dict(palette=self.top_class(), no_color=no_color, colors_conf=conf)
+        elif pk == "o":
+            kw = dict(palette=self.top_class()(colors_conf=conf), no_color=no_color)
+        else:
+            kw = dict(no_color=no_color, colors_conf=conf)
         k = self.kind
         if k == "pp":
             return self.printer(self.value, **kw)
@@ -353,13 +363,13 @@ class _Obj:
             return list(self.result(conf, no_color, palette).columns)
         return list(self.result(conf, no_color, palette))
 
-    def observe_raw(self, conf, mode):
+    def observe_raw(self, conf, mode, pk="n"):
         """what the real objects print, as python strings (encoded into a protocol reply by `_reply`)"""
         from ak.hdoc import HCommand
         nc = mode in ("n", "m", "M")
         if self.kind == "hcmd":
             return (HCommand()._make_help_text(self.func),)
-        res = self.result(conf, nc)
+        res = self.result(conf, nc, pk=pk)
         if self.kind == "rec":
             return (str(res), str(res.ch_text()))
         if mode == "c":
@@ -719,13 +729,14 @@ def _replay(case, before=None, after=None):
                 _capture(confs)
                 out.append("ok")
             elif op[0] == "render":
-                _, o, k, mode = op
+                _, o, k, mode = op[:4]
+                pk = op[4] if len(op) > 4 else "n"
                 get_obj(o)
                 conf = None if k == "g" else confs[k]
                 cur = conf if conf is not None else color.get_global_colors_config()
                 if before is not None:
                     before(i, cur)
-                raw = objs[o].observe_raw(conf, mode)
+                raw = objs[o].observe_raw(conf, mode, pk)
                 _capture(confs)         # before anything else allocates
                 out.append(_reply(raw))
                 if after is not None:
@@ -822,10 +833,11 @@ def _finish(case):
             live_enums.pop(op[1], None)
             lines.append("dropenum " + op[1])
         elif op[0] == "render":
-            _, o, k, mode = op
+            _, o, k, mode = op[:4]
+            pk = op[4] if len(op) > 4 else "n"
             spec = case["objs"][o]
             kind = {"rec": "rec", "hcmd": "hcmd"}.get(spec["kind"], "obj")
-            lines.append("render %s %s %s %s %s" % (o, kind, k, mode, shape(o)))
+            lines.append("render %s %s %s %s %s" % (o, kind, k, mode + ("+" + pk if pk != "n" else ""), shape(o)))
         elif op[0] == "setfmt":
             fmts[op[1]] = tuple(fmts.get(op[1], ())) + (op[2],)
             lines.append("setfmt %s %s" % (op[1], enc_str(op[2])))
@@ -989,7 +1001,7 @@ def oracle(case, replies):
                 continue
             if op[0] != "render":
                 continue
-            _, o, k, mode = op
+            _, o, k, mode = op[:4]
             kind = case["objs"][o]["kind"]
             if not rep.startswith("ok ") and rep != "ok":
                 return "render-raises: object %s (%s) under configuration %s mode %s -> %s" % (o, kind, k, mode, rep)
@@ -1389,6 +1401,13 @@ def _shape_ok(spec, enums, objs=None):
         return False
 
 
+def _pk(spec, rng):
+    """how the palette argument is given: mostly not at all; the palette class; a palette object"""
+    if spec["kind"] == "hcmd" or rng.random() < 0.7:
+        return []
+    return [rng.choice("cco")]
+
+
 def _modes(spec, rng):
     if spec["kind"] == "hcmd":
         return "c"
@@ -1495,7 +1514,7 @@ def _gen_history(rng, tier, late, pattern):
             k = "g"
         elif k is None:
             k = rng.choice(live + ["g"]) if live else "g"
-        ops.append(["render", o, k, mode or _modes(spec, rng)])
+        ops.append(["render", o, k, mode or _modes(spec, rng)] + _pk(spec, rng))
     new_conf()
     if pattern == "reuse":
         a = live[-1]
@@ -1606,7 +1625,7 @@ def _gen_lazy(rng, concurrent):
         elif r < 0.8:
             o = rng.choice(sorted(objs))
             k = "g" if objs[o]["kind"] == "hcmd" else conf()
-            ops.append(["render", o, k, _modes(objs[o], rng)])
+            ops.append(["render", o, k, _modes(objs[o], rng)] + _pk(objs[o], rng))
         else:
             ops.append(["gp", rng.randrange(6)])
     for _ in range(rng.randrange(1, 4)):
@@ -1672,9 +1691,9 @@ def _gen_globalmix(rng):
     if rng.random() < 0.5:
         ops.append(["res", "0", rng.choice("01"), "g", "c"])
     ops.append(["setglobal", "2"])
-    tail = [["render", "1", "1", "c"], ["render", "0", "1", "c"], ["render", "1", "g", "c"]]
+    tail = [["render", "1", "1", "c"] + _pk(et, rng), ["render", "0", "1", "c"] + _pk(plain, rng), ["render", "1", "g", "c"]]
     if "2" in objs:
-        tail.append(["render", "2", "1", "c"])
+        tail.append(["render", "2", "1", "c"] + _pk(rec, rng))
     rng.shuffle(tail)
     ops += tail[:rng.randrange(1, len(tail) + 1)]
     if any(op[0] == "res" for op in ops):
@@ -1783,6 +1802,8 @@ def _valid(case):
             if op[2] != "g" and op[2] not in confs:
                 return False
             if not set(case["objs"][op[1]].get("types", {}).values()) <= enums:
+                return False
+            if len(op) > 4 and case["objs"][op[1]]["kind"] == "hcmd":
                 return False
         elif op[0] == "res":
             if op[3] != "g" and op[3] not in confs:
@@ -1903,6 +1924,8 @@ def tags(case, replies):
     for op in case["ops"]:
         if op[0] == "render":
             yield "render:%s:%s" % (case["objs"][op[1]]["kind"], op[3])
+            if len(op) > 4:
+                yield "render:palette=" + {"c": "class", "o": "object"}[op[4]]
         else:
             yield "op:" + op[0]
     yield "ops:%d" % min(len(case["ops"]), 15)
